@@ -37,7 +37,7 @@ TimeOf(c, s) == CASE c \in {"normal", "zoned"} -> <<100 * s, 0>>
 Later(c) == CASE c \in {"normal", "allequal", "subsec", "zoned"} -> <<500, 0>>                              \* after every slot of the class
               [] c = "span1970" -> <<U0 + 500, 0>> [] OTHER -> <<U0 - 10, 0>>
 
-NoOpts == [del |-> 0, created |-> "same", cons |-> "any", xdel |-> FALSE, zones |-> FALSE]
+NoOpts == [del |-> 0, created |-> "same", cons |-> "any", xdel |-> FALSE, zones |-> FALSE, tagattr |-> "tag"]
 RECURSIVE Sum(_)
 Sum(s) == IF s = <<>> THEN 0 ELSE Head(s) + Sum(Tail(s))
 Derived == LET k == Sum(slot) IN
@@ -45,10 +45,11 @@ Derived == LET k == Sum(slot) IN
             created |-> IF k % 2 = 0 /\ cls # "zoned" THEN "same" ELSE "dc",
             cons |-> <<"any", "tag", "and">>[(k % 3) + 1],
             xdel |-> (k % 4) < 2,
-            zones |-> cls = "zoned" \/ (k % 5) < 2]
+            zones |-> cls = "zoned" \/ (k % 5) < 2,
+            tagattr |-> IF (k + n) % 2 = 0 THEN "tag" ELSE "camliNodeType"]
 Drawn == [del |-> RandomElement(0..n), created |-> IF cls = "zoned" THEN "dc" ELSE RandomElement({"same", "dc"}),
           cons |-> RandomElement({"any", "tag", "and"}), xdel |-> RandomElement(BOOLEAN),
-          zones |-> cls = "zoned" \/ RandomElement(1..5) <= 2]
+          zones |-> cls = "zoned" \/ RandomElement(1..5) <= 2, tagattr |-> RandomElement({"tag", "camliNodeType"})]
 
 Init == n = 0 /\ cls = "" /\ slot = <<>> /\ opts = NoOpts /\ ended = FALSE
 Start == /\ n = 0
@@ -79,7 +80,7 @@ ClaimsFrom(i, next) ==          \* claims of permanodes i..n, ids from next
    IF i > n THEN <<>>
    ELSE LET t == TimeOf(cls, slot[i])
             title == <<Rec(next, "claim", "set", PnId(i), "title", TitleVal, t, 0)>>
-            tag == IF i % 2 = 1 THEN <<Rec(next + 1, "claim", "add", PnId(i), "tag", TagVal, t, 0)>> ELSE <<>>
+            tag == IF i % 2 = 1 THEN <<Rec(next + 1, "claim", "add", PnId(i), opts.tagattr, TagVal, t, 0)>> ELSE <<>>
             k2 == next + 1 + Len(tag)
             dc == IF opts.created = "dc" THEN <<Rec(k2, "claim", "set", PnId(i), "dateCreated", CreatedVal(4 - slot[i], IF opts.zones THEN i % 3 ELSE 0), t, 0)>> ELSE <<>>
             k3 == k2 + Len(dc)
@@ -95,6 +96,6 @@ VTimes == [v \in 1..19 |-> IF v > 10 THEN TimeOf(cls, ((v - 11) % 3) + 1) ELSE <
 VZones == [v \in 1..19 |-> IF v > 10 THEN ZoneOffsets[((v - 11) \div 3) + 1] ELSE 0]          \* how the string spells them
 
 Emit == ended => PrintT(<<"WORLD", ToJson([items |-> Items, n |-> n, cls |-> cls, slots |-> slot, opts |-> opts, vtimes |-> VTimes, vzones |-> VZones,
-                                           cons |-> opts.cons, tagval |-> TagVal, sorts |-> <<"created", "mod">>,
+                                           cons |-> opts.cons, tagval |-> TagVal, tagattr |-> opts.tagattr, sorts |-> <<"created", "mod">>,
                                            limits |-> [i \in 1..(n + 1) |-> i], pivots |-> [i \in 1..n |-> PnId(i)]])>>)
 =============================================================================
